@@ -20,6 +20,20 @@ NA = {
 }
 
 CHECKS = {
+    "C09": dict(
+        technique="marker dataflow for insertion/parent-link pairing on all paths, who-may-write scan, guard-fact bounds for every "
+                  "subscript in shift, swap/returned-index tracking domain, escape analysis, validate-then-mutate ordering",
+        text="Partial: the pairing of child list and parent link, shift's bounds/returned index/failure discipline and "
+             "validate-then-mutate are decided on all paths of Node's mutators; equivalence with a list model over all "
+             "histories and the query results are not.",
+        note="distinct variables iterating a duplicate-free child list denote distinct nodes; writes to a not-yet-attached node are not tree state",
+        ref="DESIGN.md section 3, C09"),
+    "C11": dict(
+        technique="interprocedural write-effect analysis with receiver ownership (fresh / parameter / global) over the resolved call graph",
+        text="Complete up to call resolution (rate in the evidence): every read-only entry point's transitive effect summary is "
+             "free of writes to Nodes reached from its arguments or globals and of registry writes.",
+        note="externals (lxml, json, re, logging, uuid) are assumed not to write the model; caller-supplied result lists are not tree state",
+        ref="DESIGN.md section 3, C11"),
     "C03": dict(
         technique="layout-descriptor extraction and sibling agreement (validator vs introspection), constant folding of the helpers over "
                   "every attribute spec, loop-shape check, guard chains evaluated over the complete per-attribute abstraction, escape analysis",
